@@ -1,7 +1,7 @@
 """C15 - runs the real `BaseCommand.entry_point()` of three tiny command classes (plain AsyncScript, Scanner,
 UDSScanner on an in-process fake transport / ECU) in a fresh temp directory and reports what the run left behind.
 
-case = {"kind": "plain"|"scanner"|"uds", "lock","art","db","hooks": bool, "pre","post": "ok"|"fail",
+case = {"kind": "plain"|"scanner"|"uds", "lock","art","db","hooks": bool, "pre","post","dbopen": "ok"|"fail",
         "setup","main","tdPre","tdPost": EV, "how": {...optional concrete variants...}}
 EV   = "ok" | "exit:<n>" | "exitx" | "conn" | "uds" | "other" | "kbd" | "cancel"
 
@@ -249,6 +249,15 @@ def run_case(case: dict) -> dict:
             kw["artifacts_base"] = root / "art"
         if case["db"]:
             kw["db"] = root / "db" / "gallia.sqlite"
+            if case.get("dbopen", "ok") == "fail":  # something that is not a database / has a foreign schema version
+                (root / "db").mkdir()
+                if case.get("how", {}).get("dbopen", "garbage") == "garbage":
+                    kw["db"].write_bytes(b"this is not a database " * 64)
+                else:
+                    con = sqlite3.connect(kw["db"])
+                    con.executescript("CREATE TABLE version (schema text unique, version text); INSERT INTO version VALUES('main', '0.1');")
+                    con.commit()
+                    con.close()
         kw["hooks"] = bool(case["hooks"])
         # the scripts are configured in every run; `hooks` alone decides whether they are executed
         for v in ("pre", "post"):
@@ -339,11 +348,16 @@ def run_case(case: dict) -> dict:
                 obs["db"] = "nofile"
             else:
                 con = sqlite3.connect(p)
-                rows = con.execute("SELECT exit_code, start_time, end_time, end_timezone, path, script, config FROM run_meta").fetchall()
-                if kind == "uds":
-                    obs["db_scan_results"] = con.execute("SELECT count(*) FROM scan_result").fetchone()[0]
+                try:
+                    rows = con.execute("SELECT exit_code, start_time, end_time, end_timezone, path, script, config FROM run_meta").fetchall()
+                    if kind == "uds":
+                        obs["db_scan_results"] = con.execute("SELECT count(*) FROM scan_result").fetchone()[0]
+                except sqlite3.DatabaseError:
+                    rows = None
                 con.close()
-                if len(rows) == 0:
+                if rows is None:
+                    obs["db"] = "norow"
+                elif len(rows) == 0:
                     obs["db"] = "norow"
                 elif len(rows) > 1:
                     obs["db"] = f"rows:{len(rows)}"
